@@ -46,24 +46,7 @@ func runC03(p *Program, r *Result) {
 		}
 		nSucc++
 		facts := tb.FactsAt(ret.Block())
-		a, ok := findFact(facts, func(a Atom) bool {
-			var call *Term
-			switch {
-			case a.Kind == "call" && a.Pol && equalityCalls[a.Call.S]:
-				call = a.Call
-			case a.Kind == "cmp" && a.Op == "==" && a.Y.Op == "Const" && a.Y.S == "1" && a.X.Op == "Call" && a.X.S == "crypto/subtle.ConstantTimeCompare":
-				call = a.X
-			default:
-				return false
-			}
-			if len(call.Args) != 2 {
-				return false
-			}
-			x, y := short(call.Args[0].String()), short(call.Args[1].String())
-			isMac := func(s string) bool { return strings.HasPrefix(s, "age.headerMAC(") && strings.HasSuffix(s, ").0") }
-			isHdrMAC := func(s string) bool { return s == "Field(format.Parse(P1).0.MAC)" }
-			return (isMac(x) && isHdrMAC(y)) || (isMac(y) && isHdrMAC(x))
-		})
+		a, ok := findFact(facts, isHeaderMACEquality)
 		if ok {
 			// the MAC must be computed over the parsed header
 			r.OK(sub, "return:reader", r.pos(ret), "", guardWitness(p, a))
@@ -314,6 +297,10 @@ func runC03(p *Program, r *Result) {
 	r.Rule("R03.6", "every error return carries a nil reader", 8)
 	checkNothingOnError(p, r, dec, map[string]bool{newReader.String(): true})
 	checkNothingOnError(p, r, newReader, nil)
+	r.Rule("R03.10", "no line of the header is read and passed over (= R07.6)", 1)
+	checkNoLineDiscarded(p, r)
+	r.Rule("R03.9", "nothing is read from the payload before the header MAC has been compared (= R04.9)", 1)
+	checkPayloadAfterMAC(p, r, dec)
 	r.Rule("R03.8", "the header MAC is a function of the file key and the header alone: no package-level state in its computation", 1)
 	checkNoPackageState(p, r, []*ssa.Function{r.anchor(pkgAge, "", "headerMAC"), r.anchor(pkgAge, "", "Decrypt")}, nil)
 }
@@ -410,3 +397,49 @@ func isZeroValue(v ssa.Value) bool {
 }
 
 func itoa(i int) string { return strconv.Itoa(i) }
+
+// isHeaderMACEquality: the fact equal(headerMAC(fileKey, hdr), hdr.MAC) over the whole slices.
+func isHeaderMACEquality(a Atom) bool {
+	var call *Term
+	switch {
+	case a.Kind == "call" && a.Pol && equalityCalls[a.Call.S]:
+		call = a.Call
+	case a.Kind == "cmp" && a.Op == "==" && a.Y.Op == "Const" && a.Y.S == "1" && a.X.Op == "Call" && a.X.S == "crypto/subtle.ConstantTimeCompare":
+		call = a.X
+	default:
+		return false
+	}
+	if len(call.Args) != 2 {
+		return false
+	}
+	x, y := short(call.Args[0].String()), short(call.Args[1].String())
+	isMac := func(s string) bool { return strings.HasPrefix(s, "age.headerMAC(") && strings.HasSuffix(s, ").0") }
+	isHdrMAC := func(s string) bool { return s == "Field(format.Parse(P1).0.MAC)" }
+	return (isMac(x) && isHdrMAC(y)) || (isMac(y) && isHdrMAC(x))
+}
+
+// checkPayloadAfterMAC (R03.9 = R04.9): nothing takes the payload reader that format.Parse hands
+// back before the header MAC has been compared. A payload byte consumed earlier makes the outcome
+// for a header that is refused (altered header, no matching identity) depend on what follows the
+// header: a source that ends or fails there turns the no-match error into a read error.
+func checkPayloadAfterMAC(p *Program, r *Result, dec *ssa.Function) {
+	tb := p.TB(dec)
+	n := 0
+	for _, c := range callsIn(dec) {
+		uses := false
+		for _, a := range c.Common().Args {
+			if short(tb.Term(a).String()) == "format.Parse(P1).1" {
+				uses = true
+			}
+		}
+		if !uses {
+			continue
+		}
+		n++
+		_, ok := findFact(tb.FactsAt(c.Block()), isHeaderMACEquality)
+		r.Check(ok, dec.String(), "payload-use:"+short(calleeName(c.Common())), r.pos(c), "the payload is first touched behind the MAC comparison", "the payload reader is used by "+short(calleeName(c.Common()))+" before the header MAC has been compared: what follows the header (a cut-off or failing source) then decides how a header that must be refused is refused; the no-match error and the MAC error no longer depend on header and identities alone")
+	}
+	if n == 0 {
+		r.Unk(dec.String(), "payload-use", "", "no use of the payload reader returned by format.Parse found in Decrypt")
+	}
+}
